@@ -196,14 +196,16 @@ def noStuckI (rs : List IRes) : Bool := rs.all (fun r => !r.stuck)
 
 /-! ### overlaps the code does not survive / does not serve (excluded hypotheses of the overlap theorems) -/
 
-/-- finding `kill_overlaps_start_panics`: a KILL and a request that starts a child (START of a basic task,
-    trigger of a hook) overlap on an active task. Kill sets t.taskCmd = nil under startBasicTask: the executor
-    panics — or, when Kill ran first, the child is started for a task that has already reported its terminal status. -/
+/-- A KILL and a request that starts a child (START of a basic task, trigger of a hook) overlap on an active
+    task. Finding `kill_overlaps_start_panics` (repaired): Kill set t.taskCmd = nil under startBasicTask and the
+    executor panicked. What is left of the class in the code as it is belongs to the open finding
+    `basic_kill_spares_child` (Kill neither signals a child nor keeps a START in flight from starting one): the
+    child is started for — and survives — a task that has reported its terminal status. -/
 def overlapKillSpawn (s : St) (a b : Op) : Bool :=
   s.active && ((a = .kill && spawns s.kind b) || (spawns s.kind a && b = .kill))
 
-/-- finding `overlapping_kills_two_terminals`: two KILLs overlap on an active basic/hook task: both handlers find
-    the task (it is removed from activeTasks only by the goroutine), both goroutines call Kill. -/
+/-- finding `overlapping_kills_two_terminals` (repaired): two KILLs overlap on an active basic/hook task: both
+    handlers found the task (it was removed from activeTasks only by the goroutine), both goroutines called Kill. -/
 def overlapKillKill (s : St) (a b : Op) : Bool :=
   s.active && s.kind.basicLike && a = .kill && b = .kill
 
@@ -240,11 +242,11 @@ def neverI (c : Cfg) (P : St → Item → Bool) (k : Kind) (b : Beh) (items : Li
   if r.halts then true else neverFromI c P s items
 
 /-- The states in which one PART of the handling of a request gets the executor stuck: the request served in one
-    piece, exactly where `step` gets stuck once the look-up has succeeded (`unsafeReq`); the two parts of
-    startBasicTask that dereference t.taskCmd, exactly when a KILL has cleared it in between. -/
+    piece, exactly where `step` gets stuck once the look-up has succeeded (`unsafeReq`); before startBasicTask
+    worked on its own pointer, its two parts that dereference t.taskCmd, exactly when a KILL had cleared it. -/
 def unsafePart (c : Cfg) (s : St) : Part → Bool
   | .whole op => unsafeReq c { s with active := true } op
-  | .exec _ | .reap _ => !s.cmd
+  | .exec _ | .reap _ => !s.cmd && !c.startOwnsCmd
   | _ => false
 
 def PStep.halts : PStep → Bool
